@@ -349,7 +349,31 @@ func (ft *funcTrans) backEdge(from *ssa.BasicBlock, li *loopInfo, edgeCond strin
 		}
 		ec2 := &evalCtx{w: w, pkg: ft.pkgTypes(), env: env2, st: ft.curSt, old: ft.entry, lets: ft.lets(), cells: ft.loopCells(li, env2), ft: ft, headSt: li.hdrState, headEnv: henv}
 		for k, c := range li.lc.IterPost {
-			t := ec2.evalBool(c.E)
+			var t Term
+			skipped := false
+			func() {
+				defer func() {
+					if r := recover(); r != nil {
+						if ue, ok := r.(unsupportedErr); ok && strings.Contains(string(ue), "unknown identifier") {
+							// a body variable of the clause is not declared on the path that ends in this back
+							// edge (e.g. an early `continue`): nothing to require here; the clause must be
+							// applicable at some back edge of the loop
+							ft.notes = append(ft.notes, fmt.Sprintf("loop%d.iterpost%d not applicable at the back edge from b%d (%s)", li.ordinal, k+1, from.Index, string(ue)))
+							skipped = true
+							return
+						}
+						panic(r)
+					}
+				}()
+				t = ec2.evalBool(c.E)
+			}()
+			if skipped {
+				continue
+			}
+			if ft.iterpostOK == nil {
+				ft.iterpostOK = map[string]bool{}
+			}
+			ft.iterpostOK[fmt.Sprintf("%d.%d", li.ordinal, k+1)] = true
 			ft.obligation("iterpost", fmt.Sprintf("loop%d.iterpost%d@b%d", li.ordinal, k+1, from.Index), c.Src, t.S)
 		}
 	}
